@@ -3,6 +3,7 @@ package main
 // Opaque JSON tokens inside byte sequences ("ropes").
 
 import (
+	"strconv"
 	"fmt"
 )
 
@@ -255,6 +256,17 @@ func (th *Thread) tokEqBytes(tk *Token, lit []Value) *Term {
 			r = mkAnd(r, mkEq(mkBV(8, uint64(tk.lit[i])), lit[i].(*Term)))
 		}
 		return r
+	}
+	if tk.errv != nil && tk.ns.IsConst() && tk.ns.c == nsItoa {
+		// the decimal text of an integer: equal to a concrete text iff that
+		// text is the canonical decimal spelling of the integer's value
+		if s, ok := (&StrVal{e: lit}).goString(); ok {
+			v, err := strconv.ParseInt(s, 10, 64)
+			if err != nil || strconv.FormatInt(v, 10) != s {
+				return tFalse
+			}
+			return mkEq(tk.errv, mkBV(64, uint64(v)))
+		}
 	}
 	r := mkEq(th.tokLen(tk), mkBV(64, uint64(n)))
 	for i := 0; i < n && i < 4; i++ {
